@@ -95,7 +95,9 @@ def from_structure3d(structure, model=None):
         for a in r.atoms:
             if a.name not in atoms:
                 atoms[a.name] = np.array([a.x, a.y, a.z])
-        out.append(Res((r.chain, r.number, r.icode), r.one_letter_name, atoms, k))
+        # author identity, plus the label identity where the residue has one (assembly copies share the author identity and differ in the label chain)
+        key = (r.chain, r.number, r.icode) + ((r.label.chain, r.label.number) if getattr(r, "label", None) is not None else ())
+        out.append(Res(key, r.one_letter_name, atoms, k))
     return out
 
 
